@@ -153,6 +153,7 @@ def main():
     ap.add_argument("--seconds", type=float, default=25.0)
     ap.add_argument("--seed", type=int, default=0)
     ap.add_argument("--only", default=None, help="comma separated property ids")
+    ap.add_argument("--keep", default=None, help="directory in which {property, failure} files of the caught failures are written (for run.py --replay)")
     a = ap.parse_args()
     names = a.names or list(PATCHES)
     if len(names) != 1:  # one patch per process
@@ -160,7 +161,7 @@ def main():
 
         rc = 0
         for n in names:
-            rc |= subprocess.call([sys.executable, os.path.abspath(__file__), n, "--seconds", str(a.seconds), "--seed", str(a.seed)] + (["--only", a.only] if a.only else []))
+            rc |= subprocess.call([sys.executable, os.path.abspath(__file__), n, "--seconds", str(a.seconds), "--seed", str(a.seed)] + (["--only", a.only] if a.only else []) + (["--keep", a.keep] if a.keep else []))
         return rc
     name = names[0]
     fn, expect = PATCHES[name]
@@ -177,6 +178,15 @@ def main():
         good = len(hit) == len(wanted) if name == "cli-falsy" else bool(hit)
         ok &= good
         print(f"   {prop}: {'CAUGHT' if good else 'MISSED'} expected one of {wanted}; cases={res['cases']} signatures={json.dumps(sigs)}")
+        for w in hit:  # the stored input of the new case must replay (same patched process -> still fails)
+            f = [f for f in res["failures"] if w in f["signature"]][0]
+            rp = mod.replay(json.loads(json.dumps(f, default=str)))
+            ok &= bool(rp.get("still_fails"))
+            print(f"      replay of {f['signature']}: still_fails={rp.get('still_fails')} ({str(rp.get('detail'))[:140]})")
+            if a.keep:
+                os.makedirs(a.keep, exist_ok=True)
+                with open(os.path.join(a.keep, f"{name}_{prop}_{abs(hash(f['signature'])) % 10**6}.json"), "w") as fh:
+                    json.dump({"property": prop, "failure": f}, fh, default=str)
         for e in res["errors"][:2]:
             print("      harness error:", e[:300])
     if os.environ.get("SELFTEST_SITE"):
